@@ -1,5 +1,6 @@
 import Driver.Common
 import Canopy.Model.Smt
+import Canopy.Gen.SmtFacts
 /-! Shared step function of the C08 / C16 drivers (M-smt). Stateful; one answer per op line.
 
 grain (a) — the SMT alone:
@@ -14,6 +15,8 @@ grain (b) — the store:
   `commit`                               → `root <hex> l0 same version <v>`
   `reset`                                drop pending writes and the cached tree → `ok`
   `reopen`                               new Store object over the same database → `version <v>`
+  `copy` / `cset k v` / `cdel k` / `croot` / `cdiscard`   `Store.Copy()`: a second store with the same content; its
+                                         writes and its `Root()` (what the clone inherits comes from the generated fact)
 
 The model keeps BOTH the L1 tree (updated by the algorithm) and its own L0 key/value list; `l0` reports
 whether the L1 tree is the canonical trie of the list (`canon`). -/
@@ -43,6 +46,7 @@ structure St where
   txn : Option Pending := none            -- writes of an open nested transaction
   cached : Option Trie := none            -- the tree `Root()` built and keeps until reset/commit
   version : Nat := 0
+  clone : Option (Pending × Option Trie) := none   -- `Store.Copy()`: the clone's pending writes and cached tree
 
 def initKvs (n : Nat) : KVs := [(minKey n, minVal), (maxKey n, maxVal)]
 
@@ -136,6 +140,28 @@ def step (s : St) (line : String) : St × String :=
     match s.isStore, s.txn with
     | true, some p => ({ s with txn := none, pending := p.foldl (fun acc e => pendSet acc e.1 e.2) s.pending }, "ok")
     | _, _ => (s, "bad-op")
+  | ["copy"] =>
+    if !s.isStore || s.txn.isSome then (s, "bad-op") else
+    ({ s with clone := some (s.pending, copyCached Gen.SmtFacts.copyCarriesCommitment s.cached) }, "ok")
+  | ["cset", k, v] =>
+    match s.clone, ofHex k, ofHex v with
+    | some (p, c), some kb, some vb => ({ s with clone := some (pendSet p kb (some vb), c) }, "ok")
+    | _, _, _ => (s, "bad-op")
+  | ["cdel", k] =>
+    match s.clone, ofHex k with
+    | some (p, c), some kb => ({ s with clone := some (pendSet p kb none, c) }, "ok")
+    | _, _ => (s, "bad-op")
+  | ["croot"] =>
+    match s.clone with
+    | some (p, c) =>
+      match storeRootTree s.n c s.tree (pendingOps s.n p) with
+      | .ok t =>
+        let kvs := (pendingOps s.n p).foldl kvApply s.kvs
+        ({ s with clone := some (p, some t) }, "root " ++ hexOrDash t.root ++ " l0 " ++ l0Tag t kvs)
+      | _ => (s, "err")
+    | none => (s, "bad-op")
+  | ["cdiscard"] =>
+    if s.clone.isNone then (s, "bad-op") else ({ s with clone := none }, "ok")
   | ["root"] =>
     if !s.isStore then (s, "bad-op") else
     match storeRoot s with
